@@ -151,6 +151,8 @@ def gen_history_scenario(rng, n_steps=8, **kw):
     """a tree, then an interleaving of create runs (root / nested / -sf / -n / patterns), edits, verify and diff"""
     tree = gen_tree(rng, **{k: v for k, v in kw.items() if k in ("max_entries", "max_depth", "simple", "distinct", "ds_store")})
     patterns = kw.get("patterns")
+    if callable(patterns):
+        patterns = patterns(tree, rng)
     steps, cur = [], copy.deepcopy(tree)
     steps.append(gen_create(rng, cur, nested_ok=rng.random() < 0.4, sf_ok=False, patterns=patterns))
     for _ in range(n_steps - 1):
@@ -187,3 +189,24 @@ def gen_history_scenario(rng, n_steps=8, **kw):
             steps.append({"op": "flatten"})
     steps.append({"op": "verify"})
     return {"tree": tree, "steps": steps}
+
+
+def path_patterns(tree, rng, k=2):
+    """ignore patterns bound to a location: an existing nested path, a glob below a folder, a root-anchored name"""
+    nested = [f for f in all_files(tree) + all_dirs(tree) if "/" in f and DS not in f]
+    out = []
+    if nested:
+        f = rng.choice(nested)
+        out.append(f)
+        d, n = f.rsplit("/", 1)
+        ext = n.rsplit(".", 1)[-1] if "." in n else None
+        out.append(d + "/*" + ("." + ext if ext else ""))
+        out.append("/" + n)                       # anchored at the root: must NOT match the nested entry
+        deeper = [x for x in nested if x.count("/") >= 2]
+        if deeper:
+            out.append(rng.choice(deeper))
+    top = [n for n in tree if n != DS]
+    if top:
+        out.append("/" + rng.choice(top))
+    rng.shuffle(out)
+    return out[:k]
